@@ -158,6 +158,18 @@ def run(res):
             ls.append(l)
         plain = [("" if (x.startswith(".message") or x.startswith(".warning")) else x) for x in ls]
         mcases.append(("\n".join(ls) + "\n", "\n".join(plain) + "\n", expect))
+    # very long sources: line numbers are not limited to 16 bits (blank and comment lines cost the model nothing)
+    for at in (255, 256, 65535, 65536, 65537, 65538, 70000, 131072, 131073, 200000):
+        pad = [rng.choice(["", "; c", "\t", "  // x"]) for _ in range(at - 1)]
+        for kind, v in (("operand-range", "  ldi r16, 300"), ("syntax", "  this is not assembly"), ("undefined-symbol-data", "  .dw nosuch"),
+                        ("error-directive", ".error \"late\""), ("duplicate-label", "main_label: nop"), ("undefined-symbol-if", ".if nosuch\n.endif")):
+            if at > 70000 and kind not in ("operand-range", "error-directive"):
+                continue
+            head = ["main_label: nop"]
+            cases.append(("\n".join(head + pad[1:] + [v]) + "\n", kind, at, v))
+        ls = ["  nop"] + pad[1:] + ['.message "late %d"' % at, '.warning "later"', "  nop"]
+        mcases.append(("\n".join(ls) + "\n", "\n".join(ls[:at - 1 + 1 - 1] + ["", ""] + ["  nop"]) + "\n",
+                       [("info", "late %d" % at, at), ("warning", "later", at + 1)]))
     file_trees(res, vh, exe, rng)
     obs = P.correspond(res, vh, exe, [c[0] for c in cases] + [m[0] for m in mcases] + [m[1] for m in mcases], "single-fault and message programs")
     dist = {}
